@@ -4,7 +4,7 @@ import subprocess, sys, os, collections
 REPO='/tmp/rw/teehist'; V='/tmp/vw/teehist'; F=REPO+'/teehistorian/src/raw.rs'
 MUTS = {
  'input_new_not_replaced': [("let _ = self.inputs.insert(cid, i.new);",
-      "if self.inputs.get(cid).is_none() { let _ = self.inputs.insert(cid, i.new); }")],
+      "if self.inputs.get(&cid).is_none() { let _ = self.inputs.insert(cid, i.new); }")],
  'prev_cmp_gt': [("self.prev_player_cid.map(|p| p >= cid)", "self.prev_player_cid.map(|p| p > cid)")],
  'tickend_after_tickstart': [("""                self.tick = old_tick.checked_add(1).ok_or(format::Error::TickOverflow)?;
                 self.prev_player_cid = None;
@@ -125,7 +125,6 @@ try:
         if os.path.exists(V+'/run/mut.orc'):
             for l in open(V+'/run/mut.orc'):
                 parts = l.split(' ', 3)
-                if parts[2] == 'C17/unbounded-cid-allocation': continue
                 tags[parts[2]] += 1
                 first.setdefault(parts[2], (parts[1], parts[3][:160].strip()))
         print('== %-30s exit=%d  %s' % (name, r.returncode, dict(tags) if tags else 'NOT CAUGHT'))
